@@ -18,6 +18,7 @@ from common import stdlib_files
 from props import flowdump as fd
 
 LEVEL = 'proof'
+KNOWN_STAR = 'C04-STAR-CYCLE-3'
 ASSUMPTIONS = [
     'nast.py (what builds the graph) is outside this model; the graph is dumped from scope._all_flows after extraction',
     'the evaluation memos of the evaluator (_ctx_values, ImportedName._ref, MultiValue._rvalues, RuntimeName._instance) are not modelled: covered only by the API-level histories on one Project',
@@ -238,14 +239,80 @@ def instance_scenario(rng, root):
     return reqs
 
 
+def starcycle_scenario(rng, root):
+    """project modules that star-import each other: what supp says about each of
+    them from a user file, in every order, on one Project (resolve_star_imports re-entrancy,
+    exported_names, cached scopes)"""
+    k = 2          # rings of three or more are the open finding C04-STAR-CYCLE-3 (re-run from the corpus)
+    mods = rng.sample(['cyca', 'cycb', 'cycc', 'ringx', 'ringy'], k)
+    own = {}
+    for j, m in enumerate(mods):
+        nxt = mods[(j + 1) % k]
+        own[m] = '%s_own' % m
+        body = 'from %s import *\n%s = %d\n' % (nxt, own[m], j)
+        if rng.random() < 0.5:
+            body += 'def %s_fn():\n    return %s\n' % (m, own[mods[(j + 1) % k]])
+        open(os.path.join(root, m + '.py'), 'w').write(body)
+    fn = os.path.join(root, 'user.py')
+    reqs = []
+    for m in mods:
+        reqs.append(['assist', 'import %s\n%s.\n' % (m, m), [2, len(m) + 1], fn])
+        for o in own.values():
+            reqs.append(['location', 'import %s\n%s.%s\n' % (m, m, o), [2, len(m) + 1 + len(o)], fn])
+        reqs.append(['lint', 'from %s import *\nprint(%s)\n' % (m, ', '.join(sorted(own.values()))), None, fn])
+        reqs.append(['assist', 'from %s import \n' % m, [1, len('from %s import ' % m)], fn])
+    return reqs
+
+
+def qualified_import_scenario(rng, root):
+    """a cached project module with an unaliased `import pkg.sub` (the package does not bind sub):
+    requests through it, repeated and reordered (ImportedName._ref, AdditionalNameWrapper)"""
+    pkg = rng.choice(['qpkg', 'libq', 'vend'])
+    sub = rng.choice(['qsub', 'core', 'impl'])
+    os.makedirs(os.path.join(root, pkg))
+    open(os.path.join(root, pkg, '__init__.py'), 'w').write('')
+    open(os.path.join(root, pkg, sub + '.py'), 'w').write('class Thing(object):\n    def hello(self):\n        return 1\nflag = 1\n')
+    mod = rng.choice(['qmod', 'holder'])
+    open(os.path.join(root, mod + '.py'), 'w').write('import %s.%s\n\nval = %s.%s.Thing()\n' % (pkg, sub, pkg, sub))
+    fn = os.path.join(root, 'user.py')
+    s1 = 'from %s import val\nval.\n' % mod
+    s2 = 'from %s import val\nval.hello\n' % mod
+    s3 = 'import %s\n%s.%s.\n' % (mod, mod, pkg)
+    s4 = 'import %s\n%s.%s.%s.flag\n' % (mod, mod, pkg, sub)
+    s5 = 'import %s.%s\n%s.%s.\n' % (pkg, sub, pkg, sub)
+    return [['assist', s1, [2, 4], fn], ['location', s2, [2, 9], fn],
+            ['assist', s3, [2, len(mod) + len(pkg) + 2], fn],
+            ['location', s4, [2, len(mod) + len(pkg) + len(sub) + 7], fn],
+            ['assist', s5, [2, len(pkg) + len(sub) + 2], fn],
+            ['lint', s2, None, fn]]
+
+
 def project_histories(ctx, nproj, nseq):
     """multi-module projects; the order of assist / location / lint requests on one long-lived
     Project is permuted and every answer compared with a fresh Project's"""
     bad = 0
     wpath = os.path.join(ctx.scratch, 'c04_api.py')
     open(wpath, 'w').write(API_WORK)
+    # open finding: re-run its concrete input; KNOWN-FINDING only if that input still fails
+    kf = os.path.join(common.VERIF, 'corpus', 'C04', 'known_%s.json' % KNOWN_STAR)
+    if os.path.exists(kf):
+        k = json.load(open(kf))
+        root = os.path.join(ctx.scratch, 'known_star')
+        os.makedirs(root)
+        for name, content in k['files'].items():
+            open(os.path.join(root, name), 'w').write(content)
+        reqs = [[r[0], r[1], r[2], os.path.join(root, r[3])] for r in k['requests']]
+        jpath = os.path.join(root, 'job.json')
+        json.dump({'root': root, 'requests': reqs, 'sequences': k['sequences']}, open(jpath, 'w'))
+        rc, out, err = common.run_py(wpath, [jpath], timeout=600)
+        if rc == 0:
+            res = json.loads(out)
+            if any(a != res['fresh'][i] for seq, ans in zip(k['sequences'], res['seq']) for i, a in zip(seq, ans)):
+                ctx.known_finding(KNOWN_STAR, 'ring of three star-importing project modules: completion after `cyca.` depends on which '
+                                  'module of the ring was asked about first (input: corpus/C04/known_%s.json)' % KNOWN_STAR)
     for pi in range(nproj):
-        for kind, gen in (('relimport', relimport_scenario), ('instance', instance_scenario)):
+        for kind, gen in (('relimport', relimport_scenario), ('instance', instance_scenario),
+                          ('starcycle', starcycle_scenario), ('qualified', qualified_import_scenario)):
             root = os.path.join(ctx.scratch, 'scen_%s%d' % (kind, pi))
             os.makedirs(root)
             reqs = gen(ctx.rng, root)
